@@ -597,6 +597,15 @@ def r_frame_concat_cols(c):
     for j, src in enumerate((c.a, Y, c.b)):
         col = fcol(f, j)
         o.dtype(col.dtype, src.dtype, f'column {j}').arr(col, elems(src), f'column {j}')
+    # the same columns side by side through the consolidating constructors: adjacent columns may share a block only when their dtypes are the same
+    g1 = sf.Frame.from_items([('x', c.a)], index=['a', 'b', 'c'])
+    g2 = sf.Frame.from_items([('w', c.b), ('w2', c.b[::-1].copy())], index=['a', 'b', 'c'])
+    for tag, g in (('from_concat(consolidate_blocks)', sf.Frame.from_concat((g1, g2), axis=1, consolidate_blocks=True)),
+                   ('from_items(consolidate_blocks)', sf.Frame.from_items([('x', c.a), ('w', c.b), ('w2', c.b[::-1].copy())], index=['a', 'b', 'c'], consolidate_blocks=True)),
+                   ('consolidate()', sf.Frame.from_concat((g1, g2), axis=1).consolidate[:]() if hasattr(sf.Frame, 'consolidate') else sf.Frame.from_concat((g1, g2), axis=1))):
+        for j, src in enumerate((c.a, c.b, c.b[::-1])):
+            col = fcol(g, j)
+            o.dtype(col.dtype, src.dtype, f'{tag} column {j}').arr(col, elems(src), f'{tag} column {j}')
     return o
 
 
